@@ -1,7 +1,682 @@
-import Aergo.Model.Lib
+/-
+C08 — DPoS finality: the irreversible block is monotone, on-chain and never undone.
+
+  "No block at or below a last irreversible block (LIB) that a node has ever reported is later replaced on
+   that node's main chain: reorganisations forking below the LIB and blocks numbered at or below it are
+   refused. The reported LIB always lies on the node's main chain, requires confirmations by blocks of more
+   than two thirds of the distinct block producers, and never decreases in height. Two correct nodes never
+   hold irreversible blocks on conflicting branches as long as fewer than one third of the producers
+   misbehave, and the finality status restored after a restart equals the one recomputed from the stored
+   blocks."
+
+The statements are about the executable model `Aergo.Lib` (Aergo/Model/Lib.lean: libStatus, Status, boot
+loader, the chain-DB part the status touches), whose integer formulas are regenerated from the source
+(`Aergo.Gen.LibQuorum`) and whose behaviour is compared with the real `dpos.Status` operation by operation on
+every run (harness c08).
+
+What holds and what does not, clause by clause (details at each theorem):
+
+ * veto rules                      — `veto_below_lib`: exact, for the LIB the Status object currently holds.
+                                     BUT `restart_forgets_lib`: after a restart that LIB is 0 until the first Update
+                                     (the pinned code violates "refused"; witness `restart_veto_gap_witness`).
+ * > 2/3 distinct producers        — `quorum_more_than_two_thirds`, `libIndex_leaves_quorum` (formulas),
+                                     `prelib_quorum` (a pre-LIB needs `q` covering window blocks, pairwise distinct
+                                     producers under honest ranges), `window_invariant_history` (for 1..4 producers, every
+                                     history). For ≥ 5 producers the reload path counts fewer: `reload_quorum_fixpoint_iff`,
+                                     `reload_quorum_not_two_thirds` (the pinned code violates the clause).
+ * LIB on the main chain           — FALSE for the pinned code (`lib_on_chain_false`); `lib_on_chain_partial`: preserved by
+                                     the connect branch for any predicate the window and the proposed map satisfy.
+ * LIB never decreases             — FALSE for the pinned code (`lib_monotone_false_reorg`, `lib_monotone_false_new_producer`);
+                                     `lib_monotone_partial`: what the connect branch does guarantee.
+ * restart = recompute             — `restart_equal_partial` (LIB, lpb, proposed keys; the window is the replay);
+                                     `restart_equal_false` (the window differs).
+ * two correct nodes               — `quorum_intersect` (counting), `agreement_same_height`, `agreement_partial`
+                                     (under the extra hypothesis H); the full statement is NOT proved (comment at the end).
+-/
+import Aergo.Lemmas.LibInv
+import Mathlib.Data.Finset.Card
+
 namespace Aergo.Props.C08
 open Aergo.Lib
-/-- placeholder while the harness is brought up -/
-theorem needReorg_iff (n : Node) (r : Nat) : needReorg n r = true ↔ r ≥ n.ls.lib.no := by
-  simp [needReorg]
+
+/-! ## 1. The quorum formulas (regenerated from lib.go / dpos.go on every run) -/
+
+/-- `confirmsRequired n = ⌊2n/3⌋+1` is the least count exceeding two thirds of `n`. -/
+theorem quorum_more_than_two_thirds (n : Nat) :
+    3 * confirmsRequired n > 2 * n ∧ 3 * (confirmsRequired n - 1) ≤ 2 * n := by
+  rw [confirmsRequired_eq]; omega
+
+/-- `dpos.Init`'s `majorityCount` is the same formula as `setConfirmsRequired`'s. -/
+theorem majority_eq_confirmsRequired (n : Int) :
+    Gen.LibQuorum.majorityCount n = Gen.LibQuorum.confirmsRequired n := rfl
+
+/-- calcLIB's index `(len−1)/3` leaves at least `confirmsRequired len` entries at or above the selected one:
+the selected pre-LIB is reached by more than two thirds of the producers PRESENT IN THE MAP (not of all producers:
+see `lib_monotone_false_new_producer`). -/
+theorem libIndex_leaves_quorum (len : Nat) (h : 1 ≤ len) :
+    libIndex len < len ∧ confirmsRequired len ≤ len - libIndex len := by
+  rw [libIndex_eq, confirmsRequired_eq]; omega
+
+/-- `loadPlibStatus`/`bootLoader` pass a confirmation count where `newLibStatus` expects a producer count, so the replayed
+window requires `confirmsRequired (confirmsRequired n)` confirmations. That is the right number exactly for n ≤ 4. -/
+theorem reload_quorum_fixpoint_iff (n : Nat) (h : 1 ≤ n) :
+    confirmsRequired (confirmsRequired n) = confirmsRequired n ↔ n ≤ 4 := by
+  rw [confirmsRequired_eq, confirmsRequired_eq]; omega
+
+/-- … and for 5 or more producers it is NOT more than two thirds of them (defect class C08-reload-quorum-shrinks). -/
+theorem reload_quorum_not_two_thirds (n : Nat) (h : 5 ≤ n) :
+    3 * confirmsRequired (confirmsRequired n) ≤ 2 * n := by
+  rw [confirmsRequired_eq, confirmsRequired_eq]
+  rcases (by omega : n = 5 ∨ n = 6 ∨ n = 7 ∨ 8 ≤ n) with h | h | h | h
+  · subst h; decide
+  · subst h; decide
+  · subst h; decide
+  · have := Nat.div_mul_le_self (n * 2) 3
+    have := Nat.div_mul_le_self ((n * 2 / 3 + 1) * 2) 3
+    omega
+
+example : confirmsRequired 4 = 3 ∧ confirmsRequired 7 = 5 ∧ confirmsRequired (confirmsRequired 7) = 4 := by decide
+
+/-- An honest block factory's Confirms value `no − lpbNo` makes the confirm range exactly `(lpbNo, no]`. -/
+theorem honest_range (h : String) (no lpb : Nat) (h1 : lpb < no) (h2 : no < u64) :
+    rangeMin ⟨h, no, honestConfirms no lpb⟩ = lpb + 1 ∧
+      ∀ k, inRange ⟨h, no, honestConfirms no lpb⟩ k = true ↔ (lpb < k ∧ k ≤ no) := by
+  have e : rangeMin ⟨h, no, honestConfirms no lpb⟩ = lpb + 1 := by
+    simp only [rangeMin, honestConfirms, u64] at *
+    omega
+  refine ⟨e, fun k => ?_⟩
+  simp only [inRange, e, Bool.and_eq_true, decide_eq_true_eq]
+  omega
+
+/-! ## 2. The veto rules -/
+
+/-- NeedReorganization allows exactly the branch roots at or above the LIB the Status holds; VerifyTimestamp's LIB clause
+accepts exactly the blocks numbered above it. -/
+theorem veto_below_lib (n : Node) (root : Nat) (b : Blk) :
+    (needReorg n root = true ↔ n.ls.lib.no ≤ root) ∧ (verifyTs n b = true ↔ n.ls.lib.no < b.no) := by
+  refine ⟨by simp [needReorg], ?_⟩
+  simp only [verifyTs, Bool.not_eq_true', decide_eq_false_iff_not]
+  omega
+
+example : needReorg { (default : Node) with ls := { (default : LS) with lib := ⟨"x", 5, 1⟩ } } 4 = false ∧
+    needReorg { (default : Node) with ls := { (default : LS) with lib := ⟨"x", 5, 1⟩ } } 5 = true := by decide
+
+/-- DEFECT (class C08-restart-lazy-load-veto-gap). `Status.load` is lazy: after a process restart the Status holds a
+fresh libStatus until the first `Update`, so for EVERY node state every branch root is allowed and every positive block
+number accepted, whatever LIB was reported before the restart. -/
+theorem restart_forgets_lib (n : Node) :
+    (restart n).ls.lib.no = 0 ∧ (∀ root, needReorg (restart n) root = true) ∧
+      (∀ b : Blk, b.no ≠ 0 → verifyTs (restart n) b = true) := by
+  have h : (restart n).ls.lib.no = 0 := by simp [restart, newLS, zeroBI]
+  refine ⟨h, fun root => ?_, fun b hb => ?_⟩
+  · simp [needReorg, h]
+  · simp only [verifyTs, h, Bool.not_eq_true', decide_eq_false_iff_not]; omega
+
+/-- … while the boot loader did restore the saved LIB, and the first Update installs it. -/
+theorem restart_keeps_lib_in_loader (n : Node) (p : List (String × PL)) (lib : BI) (lpb : Nat)
+    (h : n.saved = some (p, lib, lpb)) :
+    (restart n).bl.lib = lib ∧ (restart n).bl.lpb = lpb ∧ (statusLoad (restart n)).ls.lib = lib := by
+  have hl : ∀ (ls : LS) (e : Nat), (load n ls e).lib = ls.lib ∧ (load n ls e).lpb = ls.lpb := by
+    intro ls e
+    unfold load
+    simp only
+    split
+    · exact ⟨rfl, rfl⟩
+    · split <;> exact ⟨rfl, rfl⟩
+  have h1 : (restart n).bl.lib = lib ∧ (restart n).bl.lpb = lpb := by
+    simp only [restart, h]
+    exact hl _ _
+  refine ⟨h1.1, h1.2, ?_⟩
+  have hd : (restart n).done = false := by simp [restart]
+  simp [statusLoad, hd, h1.1]
+
+section witnesses
+/-! Concrete histories (witnesses; each `decide +kernel` below EVALUATES the model on one history — a test, not a proof
+of a general claim; the general claims are the theorems around them). Producers p0..p3 (p4), this node is p0. -/
+
+private def ps4 : List String := ["p0", "p1", "p2", "p3"]
+private def mk (id : String) (no : Nat) (prev bp : String) (c : Nat) : Blk := ⟨id, no, prev, bp, c⟩
+/-- store, Update, connectToChain: a main-chain block as the chain service processes it. -/
+private def mainBlk (b : Blk) : List Op := [.blk b, .update b "", .connect b]
+
+private def b1 := mk "b1" 1 "g" "p0" 1
+private def b2 := mk "b2" 2 "b1" "p1" 2
+private def b3 := mk "b3" 3 "b2" "p2" 3
+private def b4 := mk "b4" 4 "b3" "p3" 4
+private def b5 := mk "b5" 5 "b4" "p0" 4
+private def b6 := mk "b6" 6 "b5" "p1" 4
+private def b7 := mk "b7" 7 "b6" "p2" 4
+private def b8 := mk "b8" 8 "b7" "p3" 4
+private def main8 : List Op := [b1, b2, b3, b4, b5, b6, b7, b8].flatMap mainBlk
+/-- p1 and p2 did not see b8 in time and built c8, c9 on b7 (honest Confirms 8−6, 9−7). -/
+private def c8 := mk "c8" 8 "b7" "p1" 2
+private def c9 := mk "c9" 9 "c8" "p2" 2
+/-- the permitted reorganisation (root 7 ≥ LIB 4): rollback = Update(b7), roll forward, swap. -/
+private def reorg9 : List Op := [.blk c8, .blk c9, .update b7 "", .update c8 "", .update c9 "", .swap [c9, c8]]
+
+/-- witness for `restart_forgets_lib`: LIB 4 reported, restart, a branch root 0 is allowed. -/
+theorem restart_veto_gap_witness :
+    ((newNode "p0" ps4).run main8).ls.lib.no = 4 ∧
+    needReorg ((newNode "p0" ps4).run main8) 3 = false ∧
+    needReorg ((newNode "p0" ps4).run (main8 ++ [.restart])) 0 = true := by decide +kernel
+
+/-- DEFECT (class C08-lib-decreases-after-permitted-reorg): `lib_monotone` is FALSE for the pinned code. Four honest
+producers, one delayed block: the node reports LIB 4, then a permitted one-block-deep reorganisation (root 7) makes it
+report LIB 3 — `rollbackStatusTo` reloads the proposed map as of the branch root and `updateLIB` stores whatever
+`calcLIB` then selects. -/
+theorem lib_monotone_false_reorg :
+    ¬ (∀ (n : Node) (ops : List Op), (∀ op ∈ ops, op.Valid) →
+        (n.run ops).ls.lib.no ≥ n.ls.lib.no) := by
+  intro h
+  have hv : ∀ op ∈ reorg9, op.Valid := by
+    intro op hop
+    simp only [reorg9, List.mem_cons, List.mem_nil_iff, or_false] at hop
+    rcases hop with rfl | rfl | rfl | rfl | rfl | rfl <;> simp [Op.Valid, c8, c9, b7, mk]
+  have := h ((newNode "p0" ps4).run main8) reorg9 hv
+  revert this
+  decide +kernel
+
+private def ps5 : List String := ["p0", "p1", "p2", "p3", "p4"]
+private def d1 := mk "b1" 1 "g" "p2" 1
+private def d2 := mk "b2" 2 "b1" "p0" 2
+private def d3 := mk "b3" 3 "b2" "p1" 3
+private def d4 := mk "b4" 4 "b3" "p0" 2
+private def d5 := mk "b5" 5 "b4" "p4" 2   -- p4 produced a block numbered 3 on a branch this node never adopted
+private def d6 := mk "b6" 6 "b5" "p3" 4   -- p3 likewise (numbered 2)
+private def d7 := mk "b7" 7 "b6" "p4" 2
+private def d8 := mk "b8" 8 "b7" "p0" 4
+private def d9 := mk "b9" 9 "b8" "p1" 6
+
+/-- DEFECT (class C08-lib-decreases-when-producer-first-seen), five producers, NO reorganisation and no restart: calcLIB
+ranks the producers seen so far; LIB 1 is reported after b6 and LIB 0 after b9. -/
+theorem lib_monotone_false_new_producer :
+    ((newNode "p0" ps5).run ([d1, d2, d3, d4, d5, d6].flatMap mainBlk)).ls.lib.no = 1 ∧
+    ((newNode "p0" ps5).run ([d1, d2, d3, d4, d5, d6, d7, d8, d9].flatMap mainBlk)).ls.lib.no = 0 := by
+  decide +kernel
+
+private def a1 := mk "a1" 1 "g" "p0" 1
+private def a2 := mk "a2" 2 "a1" "p1" 2
+private def a3 := mk "a3" 3 "a2" "p2" 3
+private def e1 := mk "e1" 1 "g" "p3" 1
+private def e2 := mk "e2" 2 "e1" "p0" 1
+private def e3 := mk "e3" 3 "e2" "p1" 1
+private def e4 := mk "e4" 4 "e3" "p2" 1
+private def e5 := mk "e5" 5 "e4" "p3" 4
+private def e6 := mk "e6" 6 "e5" "p0" 4
+private def e7 := mk "e7" 7 "e6" "p1" 4
+private def gblk : Blk := ⟨"g", 0, "", "", 0⟩
+private def staleHist : List Op :=
+  [a1, a2, a3].flatMap mainBlk ++
+  [.blk e1, .blk e2, .blk e3, .blk e4, .update gblk "", .update e1 "", .update e2 "", .update e3 "", .update e4 "",
+   .swap [e4, e3, e2, e1]] ++ [e5, e6, e7].flatMap mainBlk
+
+/-- DEFECT (class C08-lib-from-stale-entry-of-abandoned-branch): `lib_on_chain` is FALSE for the pinned code. After the
+reorganisation from a1,a2,a3 to e1..e4 (root = genesis = LIB, permitted) the proposed entry of p2 still names a1, a block
+of the abandoned branch; at e7 calcLIB selects it: the reported LIB is a1 while the main chain holds e1 at number 1. -/
+theorem lib_on_chain_false :
+    let n := (newNode "p0" ps4).run staleHist
+    n.ls.lib.hash = "a1" ∧ n.ls.lib.no = 1 ∧ hashByNo n 1 = some "e1" := by
+  decide +kernel
+
+/-- The last clause as literally stated is FALSE for the pinned code: one block connected, restart — the running status
+has the block in its confirms window, the restored one has an empty window (`load` returns early when begin = end). -/
+theorem restart_equal_false :
+    let n := (newNode "p0" ps4).run (mainBlk b1)
+    n.ls.confirms.length = 1 ∧ (statusLoad (restart n)).ls.confirms.length = 0 := by
+  decide +kernel
+
+end witnesses
+
+/-! ## 3. More than two thirds of the distinct producers -/
+
+theorem lookup_setP_self (k : String) (v : PL) : ∀ l, lookup k (setP k v l) = some v
+  | [] => by simp [setP, lookup]
+  | (k', v') :: t => by
+    unfold setP
+    by_cases h : (k' == k) = true
+    · simp [h, lookup]
+    · simp [h, lookup, lookup_setP_self k v t]
+
+/-- **prelib_quorum.** One connect step (`addConfirmInfo` + `update`, as in Status.Update and in the replay of
+loadPlibStatus) on a window satisfying the count invariant for `q ≤ confirmsRequired`: if the getPreLIB loop reports `bi`,
+then (a) the producer's proposed entry becomes (bi, by this block); (b) there are at least `q` blocks in the window, all
+at or after `bi`, whose confirm range contains `bi`'s number; (c) if confirm ranges are honest (a producer's later range
+starts above its earlier block: blockfactory's `no − lpbNo`), these blocks have pairwise distinct producers — so at least
+`q` distinct producers, and `q = confirmsRequired n > 2n/3` by `quorum_more_than_two_thirds`.
+A pre-LIB entry is installed ONLY this way (`prelib_only_by_walk`). -/
+theorem prelib_quorum (q : Nat) (ls : LS) (b : Blk) (hint : String) (bi : BI)
+    (hb : b.no ≠ 0) (hq : q ≤ ls.cr) (hinv : CoverInv q [] ls.confirms)
+    (hw : (walk b.bi (⟨b.bi, b.bp, ls.cr⟩ :: ls.confirms)).2 = some bi) :
+    lookup b.bp (update (addConfirmInfo ls b) hint).1.prpsd = some ⟨bi, b.bi⟩ ∧
+    ∃ confirmers : List CI,
+      confirmers.Sublist (update (addConfirmInfo ls b) hint).1.confirms ∧
+      q ≤ confirmers.length ∧
+      (∀ d ∈ confirmers, inRange d.bi bi.no = true) ∧
+      (HonestRanges (update (addConfirmInfo ls b) hint).1.confirms → (confirmers.map (·.bp)).Nodup) := by
+  have hb' : (b.no == 0) = false := by simp [hb]
+  have hinv' := walk_push_CoverInv q ls.cr b.bi b.bp ls.confirms hq hinv
+  obtain ⟨pre, c, post, hs, hc1, hc0⟩ := walk_some_split b.bi _ bi hw
+  have hcov := CoverInv_split q pre c post [] (by rw [← hs]; exact hinv')
+  -- the state after the step
+  have hst : (update (addConfirmInfo ls b) hint).1.confirms = pre ++ c :: post ∧
+      lookup b.bp (update (addConfirmInfo ls b) hint).1.prpsd = some ⟨bi, b.bi⟩ := by
+    unfold addConfirmInfo
+    simp only [hb', Bool.false_eq_true, if_false]
+    unfold update
+    simp only [hw, hs]
+    constructor <;> first | trivial | rfl | exact lookup_setP_self _ _ _
+  refine ⟨hst.2, (pre ++ [c]).filter (fun d => inRange d.bi bi.no), ?_, ?_, ?_, ?_⟩
+  · rw [hst.1]
+    refine (List.filter_sublist).trans ?_
+    exact List.Sublist.append (List.Sublist.refl pre) (by simp)
+  · rw [hc0, hc1, Nat.zero_add] at hcov
+    have e : cover (bi :: ((pre.map (·.bi)).reverse ++ [])) bi.no =
+        ((pre ++ [c]).filter (fun d => inRange d.bi bi.no)).length := by
+      unfold cover
+      simp only [List.append_nil, List.filter_append, List.length_append, List.filter_cons, List.filter_nil]
+      have e2 : (List.filter (fun b => inRange b bi.no) (pre.map (·.bi)).reverse).length =
+          (List.filter (fun d : CI => inRange d.bi bi.no) pre).length := by
+        rw [List.filter_reverse, List.length_reverse, List.filter_map, List.length_map]
+        rfl
+      rw [hc1]
+      by_cases hh : inRange bi bi.no = true
+      · simp only [hh, if_true, List.length_cons, List.length_nil]; omega
+      · simp only [hh, if_false, List.length_nil]; omega
+    omega
+  · intro d hd
+    simpa using (List.mem_filter.mp hd).2
+  · intro hh
+    rw [hst.1] at hh
+    have hsub : (pre ++ [c]).Sublist (pre ++ c :: post) :=
+      List.Sublist.append (List.Sublist.refl pre) (by simp)
+    exact covering_producers_nodup (pre ++ [c]) bi.no (List.Pairwise.sublist hsub hh)
+
+/-- the proposed map changes in a connect step only by the genesis placeholder of a producer's first block and by the
+entry `prelib_quorum` describes. -/
+theorem prelib_only_by_walk (ls : LS) (b : Blk) (hint : String) (hb : b.no ≠ 0)
+    (hw : (walk b.bi (⟨b.bi, b.bp, ls.cr⟩ :: ls.confirms)).2 = none) :
+    (update (addConfirmInfo ls b) hint).1.prpsd = (addConfirmInfo ls b).prpsd ∧
+      (update (addConfirmInfo ls b) hint).2 = none := by
+  have hb' : (b.no == 0) = false := by simp [hb]
+  unfold addConfirmInfo
+  simp only [hb', Bool.false_eq_true, if_false]
+  unfold update
+  simp only [hw]
+  constructor <;> first | trivial | rfl
+
+/-- non-vacuity of `prelib_quorum`: in the steady state of four producers the walk of b7 reports b5, the window satisfies
+the invariant for q = 3 and its ranges are honest (evaluation of one case — a test). -/
+example :
+    let n := (newNode "p0" ps4).run ([b1, b2, b3, b4, b5, b6].flatMap mainBlk)
+    (walk b7.bi (⟨b7.bi, b7.bp, n.ls.cr⟩ :: n.ls.confirms)).2 = some b5.bi ∧ n.ls.cr = 3 := by
+  decide +kernel
+
+/-- **window_invariant_history.** For a producer set of 1..4 members and EVERY history of valid chain-service operations
+(stores, Updates in both branches, connects, swaps, restarts, in any order and number) the status' confirms window and the
+boot loader's satisfy the count invariant for `confirmsRequired k`, and `confirmsRequired` stays `confirmsRequired k`: so
+`prelib_quorum` applies with `q = confirmsRequired k` at every connect step of the history, including the steps replayed by
+rollback and restart. (For k ≥ 5 the replay uses a smaller count — `reload_quorum_not_two_thirds` — and this invariant is
+false; the harness reproduces the consequence on the real code.) -/
+theorem window_invariant_history (k : Nat) (h1 : 1 ≤ k) (h4 : k ≤ 4) (self : String) (gbps : List String)
+    (hg : gbps.length = k) (ops : List Op) (hv : ∀ op ∈ ops, op.Valid) :
+    NodeInv k ((newNode self gbps).run ops) := by
+  have h0 : NodeInv k (newNode self gbps) := by
+    unfold newNode
+    simp only
+    apply restart_NodeInv k h1 h4
+    · refine ⟨?_, ?_⟩
+      · intro b hb hid; simp at hb; subst hb; simp at hid
+      · intro e he hne; simp at he; subst he; simp at hne
+    · exact hg
+  suffices ∀ (ops : List Op) (n : Node), NodeInv k n → (∀ op ∈ ops, op.Valid) → NodeInv k (n.run ops) from
+    this ops _ h0 hv
+  intro ops
+  induction ops with
+  | nil => intro n h _; exact h
+  | cons op rest ih =>
+    intro n h hv
+    have hop : op.Valid := hv op (by simp)
+    have hs := apply_StoreOk n op hop h.store
+    refine ih (n.apply op) ?_ (fun o ho => hv o (by simp [ho]))
+    cases op with
+    | blk b =>
+      have e : ∀ m : Node, m = n.apply (.blk b) → StoreOk m → NodeInv k m := by
+        intro m hm hs'
+        have : m.gbps = n.gbps ∧ m.size = n.size ∧ m.ls = n.ls ∧ m.bl = n.bl := by
+          subst hm; simp only [Node.apply]; split <;> exact ⟨rfl, rfl, rfl, rfl⟩
+        obtain ⟨g1, g2, g3, g4⟩ := this
+        exact ⟨hs', by rw [g1]; exact h.gb, by rw [g2]; exact h.sz, by rw [g3]; exact h.lsCr, by rw [g4]; exact h.blCr,
+          by rw [g3]; exact h.lsW, by rw [g4]; exact h.blW⟩
+      exact e _ rfl hs
+    | update b hint => exact statusUpdate_NodeInv k h1 h4 n b hint hop.1 h
+    | connect b => exact ⟨hs, h.gb, h.sz, h.lsCr, h.blCr, h.lsW, h.blW⟩
+    | swap bs =>
+      have e : ∀ m : Node, m = n.apply (.swap bs) → StoreOk m → NodeInv k m := by
+        intro m hm hs'
+        have : m.gbps = n.gbps ∧ m.size = n.size ∧ m.ls = n.ls ∧ m.bl = n.bl := by
+          subst hm; simp only [Node.apply, swap]
+          cases bs with
+          | nil => exact ⟨rfl, rfl, rfl, rfl⟩
+          | cons t r => simp only; split <;> exact ⟨rfl, rfl, rfl, rfl⟩
+        obtain ⟨g1, g2, g3, g4⟩ := this
+        exact ⟨hs', by rw [g1]; exact h.gb, by rw [g2]; exact h.sz, by rw [g3]; exact h.lsCr, by rw [g4]; exact h.blCr,
+          by rw [g3]; exact h.lsW, by rw [g4]; exact h.blW⟩
+      exact e _ rfl hs
+    | restart => exact restart_NodeInv k h1 h4 n h.store h.gb
+
+/-! ## 4. LIB on the main chain; LIB monotone — what the connect branch does guarantee -/
+
+/-- every block the status refers to satisfies `P` (think: "is on the node's main chain"). -/
+def AllP (P : BI → Prop) (ls : LS) : Prop :=
+  (∀ kv ∈ ls.prpsd, P kv.2.plib) ∧ (∀ c ∈ ls.confirms, P c.bi) ∧ P ls.lib ∧ P ls.genesis
+
+theorem mem_setP {k : String} {v : PL} : ∀ {l : List (String × PL)} {kv : String × PL},
+    kv ∈ setP k v l → kv = (k, v) ∨ kv ∈ l
+  | [], kv, h => by simp [setP] at h; exact Or.inl h
+  | (k', v') :: t, kv, h => by
+    unfold setP at h
+    split at h
+    · rcases List.mem_cons.mp h with h | h
+      · exact Or.inl h
+      · exact Or.inr (List.mem_cons_of_mem _ h)
+    · rcases List.mem_cons.mp h with h | h
+      · exact Or.inr (by rw [h]; exact List.mem_cons_self)
+      · rcases mem_setP h with h | h
+        · exact Or.inl h
+        · exact Or.inr (List.mem_cons_of_mem _ h)
+
+theorem walk_bis (x : BI) : ∀ (l : List CI),
+    (∀ c ∈ (walk x l).1, ∃ c0 ∈ l, c.bi = c0.bi) ∧ (∀ bi, (walk x l).2 = some bi → ∃ c0 ∈ l, bi = c0.bi)
+  | [] => by simp [walk]
+  | c :: rest => by
+    obtain ⟨ih1, ih2⟩ := walk_bis x rest
+    obtain ⟨e1, _⟩ := step_elem x c
+    rw [walk_cons]
+    generalize (if inRange x c.bi.no then { c with left := decr16 c.left } else c : CI) = c' at e1 ⊢
+    split
+    · refine ⟨?_, ?_⟩
+      · intro d hd
+        rcases List.mem_cons.mp hd with h | h
+        · exact ⟨c, List.mem_cons_self, by rw [h, e1]⟩
+        · exact ⟨d, List.mem_cons_of_mem _ h, rfl⟩
+      · intro bi hbi
+        exact ⟨c, List.mem_cons_self, by simp at hbi; rw [← hbi, e1]⟩
+    · refine ⟨?_, ?_⟩
+      · intro d hd
+        rcases List.mem_cons.mp hd with h | h
+        · exact ⟨c, List.mem_cons_self, by rw [h, e1]⟩
+        · obtain ⟨c0, m, e⟩ := ih1 d h
+          exact ⟨c0, List.mem_cons_of_mem _ m, e⟩
+      · intro bi hbi
+        obtain ⟨c0, m, e⟩ := ih2 bi hbi
+        exact ⟨c0, List.mem_cons_of_mem _ m, e⟩
+
+theorem calcLIB_mem (prpsd : List (String × PL)) (hint : String) (l : BI) (h : calcLIB prpsd hint = some l) :
+    ∃ kv ∈ prpsd, kv.2.plib = l := by
+  unfold calcLIB at h
+  have hc : l ∈ calcLIBCands prpsd := by
+    simp only at h
+    split at h
+    · rename_i b hf
+      have := List.mem_of_find?_eq_some hf
+      simp at h; rw [← h]; exact this
+    · exact List.mem_of_mem_head? h
+  unfold calcLIBCands at hc
+  split at hc
+  · simp at hc
+  · have := (List.mem_filter.mp hc).1
+    obtain ⟨kv, m, e⟩ := List.mem_map.mp this
+    exact ⟨kv, m, e⟩
+
+/-- **lib_on_chain_partial.** The connect branch (`addConfirmInfo`, `update`, `updateLIB`, `gc`) keeps every block the
+status refers to inside any predicate `P` that holds for the new block: in particular a LIB it selects satisfies `P`. With
+`P` = "block of the main chain" this is the on-chain clause for histories without rollback. The rollback branch does NOT
+preserve it (`lib_on_chain_false`): `load` keeps entries of the abandoned branch. -/
+theorem lib_on_chain_partial (P : BI → Prop) (ls : LS) (b : Blk) (hint : String) (bps : List String)
+    (h : AllP P ls) (hb : P b.bi) :
+    (∀ l, (update (addConfirmInfo ls b) hint).2 = some l → P l) ∧
+    AllP P (gc (match (update (addConfirmInfo ls b) hint).2 with
+                | some l => { (update (addConfirmInfo ls b) hint).1 with lib := l }
+                | none => (update (addConfirmInfo ls b) hint).1) bps) := by
+  obtain ⟨hp, hc, hl, hg⟩ := h
+  -- after addConfirmInfo
+  have ha : AllP P (addConfirmInfo ls b) := by
+    unfold addConfirmInfo
+    split
+    · exact ⟨hp, hc, hl, hg⟩
+    · refine ⟨?_, ?_, hl, hg⟩
+      · intro kv hkv
+        simp only at hkv
+        split at hkv
+        · exact hp kv hkv
+        · rcases mem_setP hkv with e | e
+          · rw [e]; exact hg
+          · exact hp kv e
+      · intro c hcm
+        rcases List.mem_cons.mp hcm with e | e
+        · rw [e]; exact hb
+        · exact hc c e
+  generalize addConfirmInfo ls b = s at ha ⊢
+  obtain ⟨sp, sc, sl, sg⟩ := ha
+  -- after update
+  have hu : AllP P (update s hint).1 ∧ (∀ l, (update s hint).2 = some l → P l) := by
+    unfold update
+    cases hcs : s.confirms with
+    | nil => exact ⟨⟨sp, by rw [hcs] at sc; simpa [hcs] using sc, sl, sg⟩, by simp⟩
+    | cons last rest =>
+      obtain ⟨w1, w2⟩ := walk_bis last.bi (last :: rest)
+      simp only
+      cases hw : (walk last.bi (last :: rest)).2 with
+      | none =>
+        refine ⟨⟨sp, ?_, sl, sg⟩, by simp⟩
+        intro c hcm
+        obtain ⟨c0, m, e⟩ := w1 c hcm
+        rw [e]; exact sc c0 (by rw [hcs]; exact m)
+      | some confirmed =>
+        obtain ⟨c0, m, e⟩ := w2 confirmed hw
+        have hconf : P confirmed := by rw [e]; exact sc c0 (by rw [hcs]; exact m)
+        have hpr : ∀ kv ∈ setP last.bp ⟨confirmed, last.bi⟩ s.prpsd, P kv.2.plib := by
+          intro kv hkv
+          rcases mem_setP hkv with e | e
+          · rw [e]; exact hconf
+          · exact sp kv e
+        refine ⟨⟨hpr, ?_, sl, sg⟩, ?_⟩
+        · intro c hcm
+          obtain ⟨c0, m, e⟩ := w1 c hcm
+          rw [e]; exact sc c0 (by rw [hcs]; exact m)
+        · intro l hl'
+          obtain ⟨kv, m, e⟩ := calcLIB_mem _ _ _ hl'
+          rw [← e]; exact hpr kv m
+  obtain ⟨⟨up, uc, ul, ug⟩, hlib⟩ := hu
+  refine ⟨hlib, ?_⟩
+  have hgc : ∀ t : LS, AllP P t → AllP P (gc t bps) := by
+    intro t ⟨tp, tc, tl, tg⟩
+    unfold gc
+    refine ⟨?_, ?_, tl, tg⟩
+    · intro kv hkv
+      simp only at hkv
+      split at hkv
+      · exact tp kv hkv
+      · exact tp kv (List.mem_filter.mp hkv).1
+    · intro c hcm
+      simp only at hcm
+      obtain ⟨tt, ht⟩ := dropOldLe_prefix t.lib.no t.confirms
+      have : c ∈ dropOldLe t.lib.no t.confirms := List.mem_of_mem_take hcm
+      exact tc c (by rw [ht]; exact List.mem_append_left _ this)
+  cases hr : (update s hint).2 with
+  | none => exact hgc _ ⟨up, uc, ul, ug⟩
+  | some l => exact hgc _ ⟨up, uc, hlib l hr, ug⟩
+
+/-- **lib_monotone_partial.** What the connect branch guarantees about the number it stores: it is the pre-LIB number of
+some entry of the proposed map as it stands after the step — nothing relates it to the LIB held before (`updateLIB` has
+no guard), which is why the two `lib_monotone_false_*` histories exist. If no pre-LIB is found the LIB is unchanged. -/
+theorem lib_monotone_partial (ls : LS) (b : Blk) (hint : String) :
+    (∀ l, (update (addConfirmInfo ls b) hint).2 = some l →
+        ∃ kv ∈ (update (addConfirmInfo ls b) hint).1.prpsd, kv.2.plib = l) ∧
+    ((update (addConfirmInfo ls b) hint).2 = none →
+        (update (addConfirmInfo ls b) hint).1.lib = ls.lib) := by
+  generalize hs : addConfirmInfo ls b = s
+  have hlib : s.lib = ls.lib := by
+    rw [← hs]; unfold addConfirmInfo; split <;> rfl
+  unfold update
+  cases hcs : s.confirms with
+  | nil => simp [hlib]
+  | cons last rest =>
+    simp only
+    cases hw : (walk last.bi (last :: rest)).2 with
+    | none => simp [hlib]
+    | some confirmed =>
+      simp only
+      refine ⟨fun l hl => calcLIB_mem _ _ _ hl, fun _ => hlib⟩
+
+/-! ## 5. Restart -/
+
+/-- **restart_equal_partial.** After a restart the first Update works on: the saved LIB, the saved lpbNo, the saved
+proposed map overwritten by what the replay of the stored blocks `begRecoBlockNo..best` yields (entries with a pre-LIB
+number > 0), and the replayed window. The window is NOT the window the node had (`restart_equal_false`); for ≥ 5 producers
+the replay also counts differently (`reload_quorum_not_two_thirds`). -/
+theorem restart_equal_partial (n : Node) (p : List (String × PL)) (lib : BI) (lpb : Nat)
+    (h : n.saved = some (p, lib, lpb)) :
+    let ls := (statusLoad (restart n)).ls
+    let fresh : LS := { newLS n.genesis n.self (confirmsRequired n.gbps.length) with prpsd := p, lib := lib, lpb := lpb }
+    ls.lib = lib ∧ ls.lpb = lpb ∧ ls = load n fresh n.latest := by
+  have hd : (restart n).done = false := by simp [restart]
+  obtain ⟨r1, r2, r3⟩ := restart_keeps_lib_in_loader n p lib lpb h
+  refine ⟨r3, ?_, ?_⟩
+  · simp [statusLoad, hd, r2]
+  · simp [statusLoad, hd, restart, h, newLS]
+
+/-! ## 6. Two correct nodes -/
+
+/-- **quorum_intersect.** Pure counting: among `n` producers, two sets of at least `⌊2n/3⌋+1` producers share a member
+outside any set of fewer than `n/3` (Byzantine) producers. -/
+theorem quorum_intersect {P : Type} [DecidableEq P] (U Q1 Q2 Byz : Finset P) (n : Nat)
+    (hU : U.card = n) (h1 : Q1 ⊆ U) (h2 : Q2 ⊆ U)
+    (hq1 : n * 2 / 3 + 1 ≤ Q1.card) (hq2 : n * 2 / 3 + 1 ≤ Q2.card) (hb : 3 * Byz.card < n) :
+    ∃ p, p ∈ Q1 ∧ p ∈ Q2 ∧ p ∉ Byz := by
+  by_contra hne
+  have hsub : Q1 ∩ Q2 ⊆ Byz := by
+    intro p hp
+    by_contra hpb
+    exact hne ⟨p, (Finset.mem_inter.mp hp).1, (Finset.mem_inter.mp hp).2, hpb⟩
+  have hc1 := Finset.card_le_card hsub
+  have hun : (Q1 ∪ Q2).card ≤ n := by
+    rw [← hU]; exact Finset.card_le_card (Finset.union_subset h1 h2)
+  have := Finset.card_union_add_card_inter Q1 Q2
+  omega
+
+example : ∃ p, p ∈ ({0, 1, 2} : Finset Nat) ∧ p ∈ ({1, 2, 3} : Finset Nat) ∧ p ∉ ({1} : Finset Nat) :=
+  quorum_intersect {0, 1, 2, 3} {0, 1, 2} {1, 2, 3} {1} 4 (by decide) (by decide) (by decide) (by decide) (by decide) (by decide)
+
+/-- Blocks of all nodes as a tree: `anc x b` = x is b or an ancestor of b; block b confirms the heights `(lo b, height b]`
+of its own chain. -/
+structure BlockTree (B P : Type) where
+  height : B → Nat
+  prod : B → P
+  lo : B → Nat
+  anc : B → B → Prop
+  anc_unique : ∀ x y b, anc x b → anc y b → height x = height y → x = y
+  anc_chain : ∀ x y b, anc x b → anc y b → height x ≤ height y → anc x y
+
+namespace BlockTree
+variable {B P : Type} (T : BlockTree B P)
+
+/-- block b confirms block x: x is on b's chain and its height lies in b's confirm range. -/
+def confirms (b x : B) : Prop := T.anc x b ∧ T.lo b < T.height x ∧ T.height x ≤ T.height b
+
+/-- an honest producer's confirm ranges are pairwise disjoint, across branches (Confirms = no − lpbNo, lpbNo never
+decreases: `honest_range`). -/
+def RangesDisjoint (p : P) : Prop :=
+  ∀ b b', T.prod b = p → T.prod b' = p → b ≠ b' → T.height b ≤ T.lo b' ∨ T.height b' ≤ T.lo b
+
+/-- the EXTRA hypothesis H: once a producer has confirmed x, its later blocks stay on x's branch. The pinned code has no
+such rule. -/
+def StaysOnConfirmed (p : P) : Prop :=
+  ∀ b b' x, T.prod b = p → T.prod b' = p → T.height b ≤ T.lo b' → T.confirms b x → T.anc x b'
+
+/-- evidence that x is a pre-LIB: every producer of Q has a block confirming x. -/
+def Confirmed (Q : Finset P) (x : B) : Prop := ∀ p ∈ Q, ∃ b, T.prod b = p ∧ T.confirms b x
+
+end BlockTree
+
+/-- **agreement_same_height** (no extra hypothesis): two blocks of EQUAL height that are both confirmed by quorums are the
+same block, as long as fewer than a third of the producers deviate from disjoint confirm ranges. -/
+theorem agreement_same_height {B P : Type} [DecidableEq P] (T : BlockTree B P) (U Q1 Q2 Byz : Finset P) (n : Nat)
+    (hU : U.card = n) (h1 : Q1 ⊆ U) (h2 : Q2 ⊆ U)
+    (hq1 : n * 2 / 3 + 1 ≤ Q1.card) (hq2 : n * 2 / 3 + 1 ≤ Q2.card) (hb : 3 * Byz.card < n)
+    (honest : ∀ p, p ∉ Byz → T.RangesDisjoint p)
+    (x y : B) (hx : T.Confirmed Q1 x) (hy : T.Confirmed Q2 y) (hh : T.height x = T.height y) : x = y := by
+  obtain ⟨p, p1, p2, pb⟩ := quorum_intersect U Q1 Q2 Byz n hU h1 h2 hq1 hq2 hb
+  obtain ⟨b, pbp, cx⟩ := hx p p1
+  obtain ⟨b', pbp', cy⟩ := hy p p2
+  by_cases e : b = b'
+  · subst e; exact T.anc_unique x y b cx.1 cy.1 hh
+  · rcases honest p pb b b' pbp pbp' e with h | h
+    · have := cx.2.2; have := cy.2.1; omega
+    · have := cy.2.2; have := cx.2.1; omega
+
+/-- **agreement_partial.** Under the extra hypothesis H (`StaysOnConfirmed`) for the correct producers, two blocks
+confirmed by quorums lie on one branch, with fewer than a third of the producers Byzantine. -/
+theorem agreement_partial {B P : Type} [DecidableEq P] (T : BlockTree B P) (U Q1 Q2 Byz : Finset P) (n : Nat)
+    (hU : U.card = n) (h1 : Q1 ⊆ U) (h2 : Q2 ⊆ U)
+    (hq1 : n * 2 / 3 + 1 ≤ Q1.card) (hq2 : n * 2 / 3 + 1 ≤ Q2.card) (hb : 3 * Byz.card < n)
+    (honest : ∀ p, p ∉ Byz → T.RangesDisjoint p) (stays : ∀ p, p ∉ Byz → T.StaysOnConfirmed p)
+    (x y : B) (hx : T.Confirmed Q1 x) (hy : T.Confirmed Q2 y) : T.anc x y ∨ T.anc y x := by
+  obtain ⟨p, p1, p2, pb⟩ := quorum_intersect U Q1 Q2 Byz n hU h1 h2 hq1 hq2 hb
+  obtain ⟨b, pbp, cx⟩ := hx p p1
+  obtain ⟨b', pbp', cy⟩ := hy p p2
+  have comparable : ∀ c, T.anc x c → T.anc y c → T.anc x y ∨ T.anc y x := by
+    intro c ax ay
+    rcases Nat.le_total (T.height x) (T.height y) with h | h
+    · exact Or.inl (T.anc_chain x y c ax ay h)
+    · exact Or.inr (T.anc_chain y x c ay ax h)
+  by_cases e : b = b'
+  · subst e; exact comparable b cx.1 cy.1
+  · rcases honest p pb b b' pbp pbp' e with h | h
+    · exact comparable b' (stays p pb b b' x pbp pbp' h cx) cy.1
+    · exact comparable b cx.1 (stays p pb b' b y pbp' pbp h cy)
+
+/-- the hypotheses of `agreement_partial` are satisfiable on a non-trivial tree: chains of naturals (block = its height on
+one branch), four producers in rotation, every block confirming the previous three heights. -/
+example : ∃ (T : BlockTree Nat (Fin 4)), (∀ p, T.RangesDisjoint p) ∧ (∀ p, T.StaysOnConfirmed p) ∧
+    T.Confirmed {0, 1, 2} 5 := by
+  refine ⟨{ height := id, prod := fun b => ⟨b % 4, Nat.mod_lt _ (by decide)⟩, lo := fun b => b - 4,
+            anc := fun x b => x ≤ b, anc_unique := ?_, anc_chain := ?_ }, ?_, ?_, ?_⟩
+  · intro x y b _ _ h; exact h
+  · intro x y b _ _ h; exact h
+  · intro p b b' hb hb' hne
+    simp only [id] at *
+    have e1 := congrArg Fin.val hb
+    have e2 := congrArg Fin.val hb'
+    simp only at e1 e2
+    omega
+  · intro p b b' x _ _ h hc
+    simp only [BlockTree.confirms, id] at *
+    omega
+  · intro p hp
+    simp only [BlockTree.confirms, id]
+    simp only [Finset.mem_insert, Finset.mem_singleton] at hp
+    rcases hp with rfl | rfl | rfl
+    · exact ⟨8, rfl, by omega, by omega, by omega⟩
+    · exact ⟨5, rfl, by omega, by omega, by omega⟩
+    · exact ⟨6, rfl, by omega, by omega, by omega⟩
+
+/-
+**agreement — the full statement, NOT proved.**
+
+  For all histories of n producers of which fewer than n/3 are Byzantine (equivocation; Confirms chain-locally honest),
+  with arbitrary loss, delay, partition and restarts: if correct node A reports LIB x and correct node B reports LIB y,
+  then x is an ancestor of y or y is an ancestor of x.
+
+What is proved towards it: `quorum_intersect`, `agreement_same_height` (no extra hypothesis) and `agreement_partial`, which
+needs H = `StaysOnConfirmed` — a rule the pinned code does not have: with the one-field pipelined confirmation a correct
+producer may confirm height h on branch β and later, after adopting a longer branch γ, heights h' > h on γ. Moreover the
+statement is about quorum-confirmed blocks (pre-LIBs established with `confirmsRequired n` confirmations); the LIB the
+pinned code REPORTS is a further selection (`calcLIB`) from a map that can contain stale entries and can regress
+(`lib_on_chain_false`, `lib_monotone_false_*`), and after a restart the vetoes are off (`restart_forgets_lib`), so the
+model's LIB does not even satisfy the node-local clauses the multi-node argument would start from.
+The harness explores the multi-node question on the real code (random schedules, and a bounded exhaustive exploration for
+n = 4, f = 1): that is search, it can only produce a counterexample or raise confidence.
+-/
+
 end Aergo.Props.C08
